@@ -1,15 +1,121 @@
 import Cfi.Files
 import Spec.C12
-/-! C13 — property theorems (being extended: stream accounting lemmas). -/
+import Proofs.Accounting
+import Props.C12
+/-! C13 — property theorems: for EVERY content and EVERY list of (raw-storing)
+sections. -/
 namespace Props.C13
-open Cfi
+open Cfi Cfi.Regex
 
 /-- the declared sections are read exactly once each, in declared order: the
-reader produces one element per declared section, numbered consecutively -/
+reader produces one element per declared section… -/
 theorem readDeclared_length (secs : List SecDef) (i : Nat) (s : Stream Char) :
     (readDeclared secs i s).1.length = secs.length := by
   induction secs generalizing i s with
   | nil => rfl
   | cons d ds ih => simp [readDeclared, ih]
+
+/-- …numbered consecutively in declaration order (the k-th element is the k-th
+declared section) -/
+theorem readDeclared_classes (secs : List SecDef) (i : Nat) (s : Stream Char) (k : Nat)
+    (hk : k < secs.length) :
+    ∃ raw, (readDeclared secs i s).1[k]? = some (SElem.section_ (i + k) raw) := by
+  induction secs generalizing i s k with
+  | nil => simp at hk
+  | cons d ds ih =>
+    simp only [readDeclared]
+    cases k with
+    | zero => exact ⟨(readSection d s).1, by simp⟩
+    | succ k =>
+      obtain ⟨raw, h⟩ := ih (i + 1) (readSection d s).2 k (by simpa using hk)
+      refine ⟨raw, ?_⟩
+      simp only [List.getElem?_cons_succ, h]
+      congr 2; omega
+
+/-- **Stream hand-off**: each declared section starts where the previous one
+stopped, and what they store is exactly what they consumed -/
+theorem accounts_readDeclared (secs : List SecDef) (i : Nat) (s : Stream Char) :
+    Accounts ((readDeclared secs i s).1.flatMap writeSElem) s (readDeclared secs i s).2 := by
+  induction secs generalizing i s with
+  | nil => simpa [readDeclared] using accounts_refl s
+  | cons d ds ih =>
+    simp only [readDeclared, List.flatMap_cons, writeSElem]
+    exact (accounts_readSection d s).trans (ih (i + 1) (readSection d s).2)
+
+/-- the leftovers: one default section per remaining line, verbatim -/
+theorem leftovers_account : ∀ (fuel : Nat) (s : Stream Char), s.rest.length < fuel →
+    (readLeftovers fuel s).flatMap writeSElem = s.rest := by
+  intro fuel
+  induction fuel with
+  | zero => intro s h; omega
+  | succ fuel ih =>
+    intro s h
+    simp only [readLeftovers]
+    by_cases hr : s.rest = []
+    · simp [Stream.readline_fst, hr, Stream.lineOf]
+    · have hne := lineOf_ne_nil '\n' hr
+      have hemp : ((s.readline '\n').1).isEmpty = false := by
+        cases hl : Stream.lineOf '\n' s.rest with
+        | nil => exact absurd hl hne
+        | cons _ _ => simp [Stream.readline_fst, hl]
+      rw [hemp]
+      simp only [Bool.false_eq_true, if_false, List.flatMap_cons, writeSElem]
+      have hacc := accounts_readline '\n' s
+      have hprog := readline_progress '\n' s hr
+      have hl := Props.C12.rest_length_of_accounts hacc hprog
+      rw [ih _ (by omega), ← hacc.rest]
+
+/-- every leftover element is a default section holding one line -/
+theorem leftovers_are_default (fuel : Nat) (s : Stream Char) :
+    ∀ e ∈ readLeftovers fuel s, ∃ l, e = SElem.dflt l := by
+  induction fuel generalizing s with
+  | zero => simp [readLeftovers]
+  | succ fuel ih =>
+    simp only [readLeftovers]
+    split
+    · simp
+    · intro e he
+      simp at he
+      rcases he with rfl | he
+      · exact ⟨_, rfl⟩
+      · exact ih _ e he
+
+/-- **C13 main theorem**: writing the file read from `x` reproduces `x` exactly,
+for every content — empty, shorter than the declared sections expect (a section
+reading at the end of input stores `[]`), or longer (leftovers verbatim). -/
+theorem write_read_id (secs : List SecDef) (x : List Char) :
+    writeSectionFile (readSectionFile secs x) = x := by
+  simp only [writeSectionFile, readSectionFile, List.flatMap_cons, writeSElem, List.nil_append,
+    List.flatMap_append]
+  have hacc := accounts_readDeclared secs 0 ⟨x, 0⟩
+  have hlen : (readDeclared secs 0 ⟨x, 0⟩).2.rest.length < x.length + 1 := by
+    have := congrArg List.length hacc.rest
+    simp [Stream.rest] at this
+    simp [Stream.rest] at *
+    omega
+  rw [leftovers_account _ _ hlen, ← hacc.rest]
+  simp [Stream.rest]
+
+theorem main (secs : List SecDef) (x : List Char) :
+    Spec.C13.holds secs x ⟨readSectionFile secs x, writeSectionFile (readSectionFile secs x)⟩ = true := by
+  have h := write_read_id secs x
+  simp only [Spec.C13.holds, beq_self_eq_true, Bool.true_and, Bool.and_eq_true, beq_iff_eq]
+  refine ⟨⟨?_, h⟩, h⟩
+  -- the first |secs| elements after the placeholder are the declared sections, in order
+  simp only [readSectionFile, List.drop_succ_cons, List.drop_zero]
+  have hl := readDeclared_length secs 0 ⟨x, 0⟩
+  rw [List.take_append_of_le_length (by omega), List.take_of_length_le (by omega)]
+  apply List.ext_getElem?
+  intro k
+  by_cases hk : k < secs.length
+  · obtain ⟨raw, hraw⟩ := readDeclared_classes secs 0 ⟨x, 0⟩ k hk
+    simp only [List.getElem?_map, List.getElem?_zipIdx, hraw, Option.map_some]
+  · have : (readDeclared secs 0 ⟨x, 0⟩).1[k]? = none := by
+      rw [List.getElem?_eq_none_iff]; omega
+    simp [List.getElem?_map, List.getElem?_zipIdx, this]
+
+/-- non-vacuity: content shorter than the sections expect -/
+example : readSectionFile [.fixed 2, .until_ ⟨false, Re.lit "END".toList⟩, .fixed 1] "a\n".toList =
+    [.dflt [], .section_ 0 ["a\n".toList], .section_ 1 [], .section_ 2 []] := by decide
 
 end Props.C13
